@@ -52,10 +52,10 @@ def run(ctx, tier, res, tag=''):
             res.count('typed accesses behind a run-time alignment test (accepted)' + tag)
             continue
         if s['align'] > s['guarantee']:
-            fileb = (FC.rel(loc[0]) if loc else '?').split('/')[-1]
-            k = (fileb, s['fn'], s['kind'], s['width'])
+            # identified by function, access kind and type (not by file: a function may move to another unit)
+            k = (s['fn'], s['kind'], s['width'])
             per_fn_ord[k] = per_fn_ord.get(k, 0) + 1
-            key = '%s:%s:%s:%s#%d' % (fileb, s['fn'], s['kind'], s['width'].replace(' ', '_'), per_fn_ord[k])
+            key = '%s:%s:%s#%d' % (s['fn'], s['kind'], s['width'].replace(' ', '_'), per_fn_ord[k])
             if s['kind'] in ('argument', 'stored-pointer', 'returned-pointer'):
                 res.violation(key + tag, '%s: %s promises %d-byte alignment to its user, but the pointer\'s provenance only guarantees %d'
                               % (where, s['width'], s['align'], s['guarantee']))
@@ -82,6 +82,6 @@ def run(ctx, tier, res, tag=''):
 
 
 def main(tier, seed):
-    from ..ctx import Ctx
+    from ..ctx import run_all_configs
     res = Result('C15', tier, 'proof', seed)
-    return run(Ctx('le'), tier, res)
+    return run_all_configs(run, tier, res)
